@@ -723,6 +723,24 @@ class SimFS(object):
         ofd.pos += len(data)
         return len(data)
 
+    def fd_pwrite(self, fd, data, offset):
+        # positional write: goes straight to the file, whatever a buffered file object on the same descriptor still holds
+        ofd = self._ofd(fd)
+        proc, fault = self._enter('write', ofd.path)
+        if not ofd.writable:
+            raise _err(errno.EBADF)
+        data = bytes(data)
+        if fault is not None and fault[0] == 'short':
+            data = data[:max(1, min(len(data), fault[1]))]
+        if data:
+            self._mut(('write', ofd.inode.ino, offset, data, self._now()))
+        return len(data)
+
+    def fd_pread(self, fd, n, offset):
+        ofd = self._ofd(fd)
+        self._enter('read', ofd.path)
+        return bytes(ofd.inode.data[offset:offset + n])
+
     def fd_seek(self, fd, off, whence=0):
         ofd = self._ofd(fd)
         if whence == 0:
